@@ -513,6 +513,54 @@ fn decoders(seed: u64) {
     out.flush().unwrap();
 }
 
+/// C14 (always UTF-8): every growing String operation when the arena refuses the memory it needs (the
+/// chunk is full and an allocation limit forbids another one). bumpalo reports that by an unwinding
+/// panic, so the String is observable afterwards: it must still be valid UTF-8 — no part of a
+/// multi-byte character may have been written and counted before the refusal.
+fn refused_growth(seed: u64) {
+    use std::fmt::Write as _;
+    let mode = if cfg!(debug_assertions) { "debug" } else { "release" };
+    println!("H id=900100 seed={} mode={}", seed, mode);
+    let mut cases = 0usize;
+    for slack in 0..5usize {
+        for how in 0..14usize {
+            let bump = Bump::new();
+            let mut s = BString::with_capacity_in(6 + slack, &bump);
+            s.push_str("ab\u{e9}de");          // 6 bytes
+            let room = bump.chunk_capacity();
+            let _fill = bump.alloc_slice_fill_copy(room, 0u8);
+            bump.set_allocation_limit(Some(bump.allocated_bytes()));
+            let before = s.as_bytes().to_vec();
+            let r = catch_unwind(AssertUnwindSafe(|| match how {
+                0 => s.push('\u{e9}'),
+                1 => s.push('\u{20ac}'),
+                2 => s.push('\u{1d11e}'),
+                3 => s.push_str("\u{20ac}\u{20ac}\u{20ac}"),
+                4 => s.insert(0, '\u{20ac}'),
+                5 => s.insert(2, '\u{1d11e}'),
+                6 => s.insert_str(2, "\u{20ac}\u{e9}\u{20ac}"),
+                7 => s.replace_range(0..1, "\u{20ac}\u{20ac}\u{20ac}"),
+                8 => s.replace_range(.., "\u{65e5}\u{672c}\u{8a9e}\u{65e5}\u{672c}\u{8a9e}"),
+                9 => s.replace_range(4..4, "\u{1d11e}\u{1d11e}\u{1d11e}"),
+                10 => s.extend(['\u{20ac}', '\u{e9}', '\u{1d11e}', '\u{20ac}']),
+                11 => s.extend(["\u{20ac}\u{e9}", "\u{1d11e}\u{1d11e}"]),
+                12 => { let _ = write!(s, "{}|{:>4}", "\u{20ac}\u{20ac}", '\u{e9}'); }
+                _ => { let _ = s.write_char('\u{1d11e}'); let _ = s.write_char('\u{1d11e}'); }
+            }));
+            bump.set_allocation_limit(None);
+            cases += 1;
+            let valid = std::str::from_utf8(s.as_bytes()).is_ok();
+            if !valid {
+                println!("X refused_growth_leaves_invalid_utf8 how={} slack={} panicked={} before={} after={}", how, slack, r.is_err() as u8, hex(&before), hex(s.as_bytes()));
+            }
+            // the string stays usable: a later operation on it gives valid text as well
+            if valid { s.push('z'); if std::str::from_utf8(s.as_bytes()).is_err() { println!("X refused_growth_then_push_invalid how={} slack={}", how, slack); } }
+        }
+    }
+    println!("N refused_growth_cases_{}", cases);
+    println!("E");
+}
+
 fn main() {
     std::panic::set_hook(Box::new(|_| {}));
     let args: Vec<String> = std::env::args().collect();
@@ -528,6 +576,7 @@ fn main() {
             let first: u64 = args.get(5).map(|s| s.parse().unwrap()).unwrap_or(0);
             if first == 0 {
                 decoders(seed);
+                refused_growth(seed);
             }
             for hid in first..first + count {
                 run_program(seed, hid, maxops);
